@@ -78,6 +78,24 @@ def impl(case) -> str:
             ch = f.getChallenge(bytes.fromhex(case["ip"]) if case["ip"] is not None else None)
             assert ch["nonce"] == bytes.fromhex(case["nonce"])
             return ch["opaque"].hex()
+        if case["kind"] == "session":
+            # ONE factory, several decode() calls, the clock moving in between
+            clock = [0]
+            f._getTime = lambda: clock[0]
+            outs = []
+            for now, raw, host, _expect in case["steps"]:
+                clock[0] = now
+                try:
+                    creds = f.decode(bytes.fromhex(raw), bytes.fromhex(case["method"]), bytes.fromhex(host))
+                except error.LoginFailed:
+                    outs.append("LF")
+                    continue
+                o = ""
+                for pw in case["pws"]:
+                    r = creds.checkPassword(bytes.fromhex(pw))
+                    o += "T" if r is True else ("F" if r is False else "?")
+                outs.append(o + "|" + ";".join(k.encode("ascii").hex() + "=" + v.hex() for k, v in creds.fields.items()))
+            return "/".join(outs)
         if case["kind"] == "parse":
             # the first lines of decode(): splitlines/join, _parseparts.findall, strip (class attribute of the factory)
             raw = b" ".join(bytes.fromhex(case["raw"]).splitlines())
@@ -104,6 +122,19 @@ def impl(case) -> str:
 
 def oracle(case, obs):
     if case["kind"] == "parse":
+        return None
+    if case["kind"] == "session":
+        got = [x.split("|")[0] for x in obs.split("/")]
+        for j, (st, g) in enumerate(zip(case["steps"], got)):
+            now, _raw, host, want = st
+            if g != want:
+                kind = "accepted" if "T" in g and "T" not in want else "rejected" if want != "LF" and g == "LF" else "outcome"
+                return Failure(case, f"step {j} of a session on one factory (clock {now}, issued {case['t0']}, from "
+                                     f"{bytes.fromhex(host)!r}): outcome {g}, expected {want} -- every presentation of a response "
+                                     f"is judged on its own (lifetime, address), whatever was verified before",
+                               f"session-{kind}")
+        if len(got) != len(case["steps"]):
+            return Failure(case, "malformed observation", "log")
         return None
     if case["kind"] == "ctx":
         return _ctx_oracle(case, obs)
@@ -429,6 +460,32 @@ def gen(rng, tier):
         cases.append(in_context(raw))
         if rng.random() < 0.3:
             cases.append({"kind": "parse", "hash": "toy", "priv": "00", "realm": "00", "now": 0, "raw": _h(raw)})
+    for _ in range(60 * n):
+        # one factory, one honest response presented repeatedly while the clock moves (and from other addresses, and
+        # interleaved with a second client's response): replay after expiry must be rejected
+        hk = rng.choice(["toy", "toy", "real"])
+        base = _one(rng, hk, "honest")
+        t0 = base["now"]            # "honest" cases are built with now = t0 + d, d <= 900: recover t0 from the opaque instead
+        fs = {bytes.fromhex(k): bytes.fromhex(v) for k, v in base["fields"]}
+        key = base64.b64decode(fs[b"opaque"].split(b"-")[1])
+        t0 = int(key.split(b",")[2])
+        ip = bytes.fromhex(base["host"])
+        raw = _h(_ser(base["fields"]))
+        other = _one(rng, hk, "honest")
+        steps = []
+        for _ in range(rng.randrange(2, 7)):
+            d = rng.choice([0, 1, 450, 899, 900, 901, 902, 2000, 10 ** 6])
+            k = rng.random()
+            if k < 0.7:
+                steps.append([t0 + d, raw, _h(ip), base["expect"] if d <= LIFETIME else "LF"])
+            elif k < 0.85:
+                host = ip + b"1"
+                steps.append([t0 + d, raw, _h(host), "LF"])
+            else:
+                steps.append([t0 + d, raw, _h(ip), base["expect"] if d <= LIFETIME else "LF"])
+                steps.append([t0 + d + 1, raw, _h(ip), base["expect"] if d + 1 <= LIFETIME else "LF"])
+        cases.append({"kind": "session", "hash": hk, "priv": base["priv"], "realm": base["realm"], "now": 0, "t0": t0,
+                      "method": base["method"], "pws": base["pws"], "steps": steps})
     for _ in range(100 * n):
         ip = rng.choice([b"10.0.0.1", b"", None, b"fe80::1"])
         cases.append({"kind": "challenge", "hash": rng.choice(["toy", "real"]), "priv": _h(bytes(rng.randrange(256) for _ in range(12))),
@@ -438,6 +495,27 @@ def gen(rng, tier):
 
 
 def corpus():
+    return _corpus_base() + _corpus_sessions()
+
+
+def _corpus_sessions():
+    out = []
+    priv, realm, nonce, ip, t0 = b"k" * 12, b"realm", b"00112233445566778899aabb", b"10.0.0.1", 1000
+    for hashk in ("real", "toy"):
+        op = _opaque(hashk, priv, nonce, ip, b"%d" % t0)
+        r = _response(hashk, b"md5", b"u", realm, b"pw", b"GET", b"/x", nonce, b"00000001", b"abc", b"auth")
+        good = [[b"username", b"u"], [b"realm", realm], [b"nonce", nonce], [b"uri", b"/x"], [b"response", r],
+                [b"opaque", op], [b"qop", b"auth"], [b"nc", b"00000001"], [b"cnonce", b"abc"]]
+        raw = _h(_ser([[_h(k), _h(v)] for k, v in good]))
+        # fresh, fresh again, replayed after the lifetime (nothing else verified in between), then from elsewhere
+        steps = [[t0 + 5, raw, _h(ip), "TF"], [t0 + 900, raw, _h(ip), "TF"], [t0 + 901, raw, _h(ip), "LF"],
+                 [t0 + 5000, raw, _h(ip), "LF"], [t0 + 10, raw, _h(b"10.0.0.2"), "LF"]]
+        out.append({"kind": "session", "hash": hashk, "priv": _h(priv), "realm": _h(realm), "now": 0, "t0": t0,
+                    "method": _h(b"GET"), "pws": [_h(b"pw"), _h(b"no")], "steps": steps})
+    return out
+
+
+def _corpus_base():
     # F20 and its siblings, as raw responses against a fixed factory
     priv, realm, nonce, ip, t0 = b"k" * 12, b"realm", b"00112233445566778899aabb", b"10.0.0.1", 1000
     out = []
@@ -484,6 +562,11 @@ def to_coq(case):
         return f"VChallenge ({hx(case['priv'])}, {hx(case['nonce'])}, {coq_bytes(ip)}, {case['now']}%N)"
     if case["kind"] == "parse":
         return f"VParse {hx(case['raw'])}"
+    if case["kind"] == "session":
+        pws = coq_list([hx(p) for p in case["pws"]], "(list N)")
+        steps = coq_list([f"({now}%N, {hx(raw)}, {hx(case['method'])}, {hx(host)}, {pws})" for now, raw, host, _ in case["steps"]],
+                         "(N * list N * list N * list N * list (list N))")
+        return f"VSession ({hx(case['priv'])}, {hx(case['realm'])}, {steps})"
     raw = bytes.fromhex(case["raw"]) if "raw" in case else _ser(case["fields"])
     pws = coq_list([hx(p) for p in case["pws"]], "(list N)")
     return (f"VLogin ({hx(case['priv'])}, {hx(case['realm'])}, {case['now']}%N, {coq_bytes(raw)}, {hx(case['method'])}, "
@@ -522,7 +605,8 @@ SPEC = Spec(
          "transparent hash (compared with the model) and 25 each with real MD5/SHA-1 (oracle only), 1000 random byte-level "
          "mutations (flip/delete/insert, 1-3 bytes) of a raw honest response, 200 well-formed key=value lists (appended to an honest response so that decode() exposes the parsed fields) in every spelling "
          "(quoted/bare, folded lines, padding) that must parse back to their pairs, 300 random strings over the bytes the "
-         "expression distinguishes, 100 issued challenges; "
+         "expression distinguishes, 100 issued challenges, 60 sessions that present one response 2-8 times to ONE factory while the clock moves across "
+         "the lifetime (replay after expiry, other address in between); "
          "thorough = 20x; non-trivial = anything but an unmodified honest response that was denied; distinct by (case, observation)",
     trusted=["hand-written model coq/C48/Model.v of the acceptance logic on parsed fields (tied by this correspondence run)",
              "the regular expression of decode() is transcribed by hand into Model.match_at / findall (leftmost match, greedy "
